@@ -13,6 +13,18 @@
 (*                 in N(x) with the same length, a list of atoms with the   *)
 (*                 same elements as a multiset (re-ordering allowed, losing *)
 (*                 or merging elements not)                                 *)
+(*  C15.update     ldapupd (v1 stored, v2 written through the real          *)
+(*                 Admin.update / _diff_entries, read back): the decoded    *)
+(*                 object is what the set-wise update of the entry decodes  *)
+(*                 to (every attribute family the new entry mentions holds  *)
+(*                 the new values, the rest is untouched) -- the normal     *)
+(*                 form of v2 whenever v2 says something about everything   *)
+(*                 v1 has (flag update.full).  Narrowing: where old and new *)
+(*                 values of an attribute are the same SET of the same size *)
+(*                 (order / multiplicity only) the code's diff calls them   *)
+(*                 equal; the old list is accepted there (flag              *)
+(*                 update.seteq); pairs whose prescribed entry cannot be    *)
+(*                 decoded are not judged (flag update.undecodable)         *)
 (*  C15.idLen      a unique name ends in a 13-character id; a generated id  *)
 (*                 has 13 characters                                        *)
 (*  drift.format   the real encoding is the string Codec.tla's format gives *)
@@ -39,10 +51,14 @@ Ex(name, cond) == IF cond THEN {name} ELSE {}
 Verdict(f, items, j) ==
   LET it == items[j] IN
   [fail |->
-     Fl2("C15.roundtrip", it.ok /\ Same(it.d, WantOf(f, it)))
+     Fl2("C15.roundtrip", f # "ldapupd" => (it.ok /\ Same(it.d, WantOf(f, it))))
+     \cup Fl2("C15.update",
+              (f = "ldapupd" /\ ~it.undecodable) =>
+                 /\ it.ok
+                 /\ (Same(it.d, it.want) \/ (it.seteq /\ Same(it.d, it.alt))))
      \cup Fl2("C15.injective",
               \A m \in 1..(j - 1) :
-                 (items[m].enc = it.enc /\ items[m].ok /\ it.ok)
+                 (f # "ldapupd" /\ items[m].enc = it.enc /\ items[m].ok /\ it.ok)
                    => Same(IdentOf(f, items[m]), IdentOf(f, it)))
      \cup Fl2("C15.idLen", /\ (f = "uniq" => Len(IdOfUnique(it.enc)) = 13)
                            /\ (f = "uid" => Len(it.enc) = 13))
@@ -51,7 +67,11 @@ Verdict(f, items, j) ==
               ModelOf(f) \in NameFormats =>
                  /\ Enc(f, it.v) = it.enc
                  /\ Dec(f, it.v, it.enc) = it.v),
-   ex |-> Ex("C15", it.ok)]
+   ex |-> Ex("C15", it.ok)
+          \cup (IF f # "ldapupd" THEN {}
+                ELSE Ex("update.full", it.full) \cup Ex("update.seteq", it.seteq)
+                     \cup Ex("update.undecodable", it.undecodable)
+                     \cup Ex("update.changed", it.ok /\ ~Same(it.v.v1, it.v.v2)))]
 
 TraceInit == /\ fmt \in {r.fmt : r \in SetOf(Recs)}
              /\ k = 0
